@@ -15,6 +15,12 @@ CHECKS = {
          "(b) CrossHair: toXmlName/coerceElement/coerceAttribute/fromXmlName on all names up to length 3 (quick) / 4 (thorough) over a 12-character class alphabet: result accepted by expat, legal names unchanged, round trip, injectivity (thorough); coerceComment on all Unicode strings up to length 5/7 with symbolic flags; coercePubid up to length 3.",
     note="expat is the XML-name oracle (XML 1.0 4th ed.); alphabet-to-all-characters step rests on (a) and on toXmlName using characters only through the two regexes; non-BMP outside the claim. " + NOTE_COMMON,
     design="§3 C20"),
+ "C05": dict(
+    technique="bounded symbolic execution (CrossHair/z3) of the real HTMLUnicodeInputStream over a source with symbolic read sizes and chunk size, against an ideal-stream reference; BufferedStream with symbolic read/seek script",
+    text="(i) for every Unicode text of <= 3 (quick) / 4 (thorough) characters, every segmentation into three symbolic read sizes and every internal chunk size 1..3, char() delivers exactly the newline-normalised text (solver-closed over all code points: CR, LF, surrogates, NUL ...); "
+         "(ii) with the real position/error bookkeeping, for text over a 6-class alphabet: scripts of reads, 0..2 look-ahead push-backs, one charsUntil (2 sets x opposite) and read-to-end give the reference characters, positions after every step and the segmentation-independent invalid-code-point count; (iii) BufferedStream read/seek/tell vs a byte-string reference.",
+    note="NOT APPLICABLE dimension: bytes/byte streams in any encoding (decoding is C codecs; CrossHair cannot execute it symbolically) - only BufferedStream is covered. Tree-level independence follows by composition with C02 (tokenizer steps run on such chunks). Known finding: column shift after a push-back across a chunk start. " + NOTE_COMMON,
+    design="§3 C05"),
  "C14": dict(
     technique="bounded symbolic execution (CrossHair/z3) of the real consumeNumberEntity/consumeEntity/trie/htmlentityreplace_errors against an independent reference over Python's html.entities tables; numeric value closed for an UNBOUNDED symbolic integer; z3 query on the replacement table",
     text="Numeric references: consumeNumberEntity is closed for every non-negative integer value (unbounded symbolic n via a stub of the digit parser) and every terminator character; the unstubbed digit path for <= 2/3 class digits, 0..12/40 leading zeros, all five contexts. "
